@@ -18,7 +18,7 @@ import unified_planning.environment
 import unified_planning.model.walkers as walkers
 from unified_planning.exceptions import UPUnreachableCodeError
 from unified_planning.model.fnode import FNode
-from unified_planning.model.operators import OperatorKind
+from unified_planning.model.operators import OperatorKind, TRAJECTORY_CONSTRAINTS
 from typing import List, Tuple
 from itertools import product
 
@@ -69,6 +69,14 @@ class Nnf:
                     else:
                         new_e = self.manager.And(args)
                     solved.append(new_e)
+                elif e.node_type in TRAJECTORY_CONSTRAINTS:
+                    # (non negated) temporal operator: only its arguments are normalized
+                    args = [solved.pop() for _ in range(len(e.args))]
+                    solved.append(
+                        self.manager.create_node(
+                            node_type=e.node_type, args=tuple(args)
+                        )
+                    )
                 elif e.is_exists() or e.is_forall():
                     # not Exists x. phi == Forall x. not phi (and vice versa)
                     body = solved.pop()
@@ -84,6 +92,10 @@ class Nnf:
             else:
                 if e.is_not():
                     stack.append((not p, e.arg(0), False))
+                elif p and e.node_type in TRAJECTORY_CONSTRAINTS:
+                    stack.append((p, e, True))
+                    for arg in e.args:
+                        stack.append((True, arg, False))
                 elif e.is_exists() or e.is_forall():
                     # negations are pushed through quantifiers and their bodies normalized
                     stack.append((p, e, True))
